@@ -6,6 +6,40 @@ from . import core
 from .c20 import render
 
 
+def keep(gen, pred):
+    lines = [l for l in open(gen) if l.strip() and pred(json.loads(l)["k"])]
+    with open(gen, "w") as f:
+        f.writelines(lines)
+
+
+def vertex_limit_leg(rep, d, tier, pid="C01"):
+    """C01: polygons longer than the vertex limit through write_gds / read_gds (region equality)"""
+    hb = core.hbin("h_geo")
+    gen = os.path.join(d, "gen_frac.ndjson")
+    open(gen, "w").close()
+    render(os.path.join(core.SPEC, "MC_C12.cfg.in"), os.path.join(d, "MC_C12.cfg"), DEPTH=tier)
+    r = core.tlc("MC_C12", "MC_C12.cfg", d, workers=12, env=dict(GEN_OUT=gen), heap="6g",
+                 tag="gds-vertex-limit-cases")
+    rep.add_model("gds-vertex-limit-cases", r)
+    keep(gen, lambda k: k in ("gdsfrac", "gdspath"))
+    obs = os.path.join(d, "obs_frac.ndjson")
+    tmp = os.path.join(d, "tmp")
+    os.makedirs(tmp, exist_ok=True)
+    core.run([hb, gen, obs, tmp], timeout=3000)
+    v = core.validate("C12Trace", "C12Trace.cfg", d, obs, nparts=16, boundary=None)
+    n = core.count_lines(gen)
+    rep.add_validation("gds-vertex-limit(write_gds max_points -> read_gds, region equality)", v, n,
+                       distinct=n)
+    for line, why, fn in v["rejects"]:
+        rp = os.path.join(d, "replay", "frac_%d.ndjson" % line)
+        os.makedirs(os.path.dirname(rp), exist_ok=True)
+        ev = json.loads(core.extract_execution(obs, line, rp, boundary="{"))
+        g = ev.get("g", {})
+        sig = "%s %s poly=%s limit=%s s=%s %s" % (pid, ev.get("e"), g.get("ip"), g.get("limit"),
+                                                g.get("s"), why[:120])
+        rep.violation(sig, rp, why[:300])
+
+
 def run(rep, tier, seed):
     core.build("rel")
     d = core.rundir("C12")
@@ -15,6 +49,7 @@ def run(rep, tier, seed):
     render(os.path.join(core.SPEC, "MC_C12.cfg.in"), os.path.join(d, "MC_C12.cfg"), DEPTH=tier)
     r = core.tlc("MC_C12", "MC_C12.cfg", d, workers=12, env=dict(GEN_OUT=gen), heap="6g")
     rep.add_model("fracture-slice-cases", r)
+    keep(gen, lambda k: k not in ("gdsfrac", "gdspath"))
     obs = os.path.join(d, "obs.ndjson")
     core.run([hb, gen, obs], timeout=3000)
     v = core.validate("C12Trace", "C12Trace.cfg", d, obs, nparts=16, boundary=None)
